@@ -6,10 +6,15 @@
 //	    n ranges over the fields tagged as domain names, v over every other scalar cell)
 //	    and compared with dns.IsDuplicate.  list vectors: lists over the six Dedup
 //	    symbols with the surviving indexes and TTLs; compared with dns.Dedup(list, nil).
+//	    lens vectors: two selections of the elements of a base list, applied to EVERY slice of
+//	    every type; hdrbit vectors: two values of the class / type / TTL differing in one bit.
 //	dup record <out.ndjson> <n>
 //	    random pairs of records obtained from the wire (their uncompressed owner/RDATA
 //	    octets from the real Pack, spans of embedded names) with the real IsDuplicate in
 //	    both orders, and random lists with the real Dedup result, for Trace_Dup.
+//	dup sweep <out.ndjson> <shard> <nshards>
+//	    exhaustive single-octet RDATA overwrites, address / text spellings, every slice with
+//	    elements dropped or repeated, every bit of the type / class / TTL octets flipped.
 //	dup kinds
 package main
 
@@ -323,12 +328,21 @@ type vec struct {
 	W      int    `json:"w"`
 	Ta     hx.B   `json:"ta"`
 	Tb     hx.B   `json:"tb"`
+	N      int    `json:"n"`  // lens: length of the base list
+	La     []int  `json:"la"` // lens: element numbers of the first / second record's list
+	Lb     []int  `json:"lb"`
+	F      string `json:"f"`   // hdrbit: class | type | ttl
+	Bit    int    `json:"bit"` // hdrbit: the bit in which the two header values differ
+	Va     []int  `json:"va"`  // hdrbit: the value in the first / second record (TTL: two 16-bit limbs)
+	Vb     []int  `json:"vb"`
 	// replay files
 	UA    bool   `json:"ua,omitempty"`
 	UB    bool   `json:"ub,omitempty"`
 	RKind string `json:"rkind,omitempty"`
 	NameP string `json:"namep,omitempty"`
 	ValP  string `json:"valp,omitempty"`
+	ListP string `json:"listp,omitempty"` // lens: the slice the selection is applied to
+	How   string `json:"how,omitempty"`   // lens / hdrbit: as-built | from-the-wire
 }
 
 func rel(a, b abs) string {
@@ -372,6 +386,7 @@ type replayer struct {
 	sum       *hx.Summary
 	seen      map[string]bool
 	skips     map[string]int
+	lskips    int
 }
 
 func (rp *replayer) caseOf(in *inst, v *vec) map[string]interface{} {
@@ -613,6 +628,208 @@ func (rp *replayer) octets(k rw.Kind, names []string, vecs []*vec) {
 	}
 }
 
+// ---------------------------------------------------------------------------
+// lists of different length, single header bits
+
+// listPaths: every slice of the kind's populated record (the lists -- texts, type bitmaps,
+// prefixes, parameters, options, names -- and the octet strings), outside the header.
+func listPaths(k rw.Kind) []string {
+	_, cells := rw.WalkCells(k.Build())
+	var out []string
+	for _, c := range cells {
+		if c.Kind == reflect.Slice && !strings.HasSuffix(c.Path, "[append]") && !strings.Contains(c.Path, ".Hdr.") && c.V.Len() > 0 {
+			out = append(out, c.Path)
+		}
+	}
+	return out
+}
+
+// withList builds the kind's record with the slice at path replaced by the selection sel
+// (1-based element numbers of the populated slice) in a backing array of its own.
+func withList(k rw.Kind, path string, sel []int) dns.RR {
+	rr := k.Build()
+	c := cellAt(rr, path)
+	nv := reflect.MakeSlice(c.V.Type(), len(sel), len(sel))
+	for i, e := range sel {
+		nv.Index(i).Set(c.V.Index(e - 1))
+	}
+	c.V.Set(nv)
+	return rr
+}
+
+func viaWire(w []byte) dns.RR {
+	u, off, err := dns.UnpackRR(w, 0)
+	if err != nil || off != len(w) {
+		return nil
+	}
+	return u
+}
+
+// isDup2 calls IsDuplicate in both argument orders; a panic is an observation of its own.
+func isDup2(a, b dns.RR) (ab, ba bool, pab, pba string) {
+	pab = hx.Catch(func() { ab = dns.IsDuplicate(a, b) })
+	pba = hx.Catch(func() { ba = dns.IsDuplicate(b, a) })
+	return
+}
+
+// judge2 files what the two calls showed against the expected verdict exp: a panic, or a wrong
+// answer, of either call; keys are built from the clause violated, mid (kind and what differs).
+func judge2(sum *hx.Summary, exp, never bool, kn, mid string, ab, ba bool, pab, pba, what string, cs map[string]interface{}) {
+	for i, p := range []string{pab, pba} {
+		if p != "" {
+			sum.Mis("isduplicate/panics:"+mid, fmt.Sprintf("%s: IsDuplicate(%s) panics: %s", what, []string{"a, b", "b, a"}[i], firstLine(p)), cs)
+		}
+	}
+	okAB, okBA := pab != "" || ab == exp, pba != "" || ba == exp
+	if okAB && okBA {
+		return
+	}
+	var key string
+	switch {
+	case exp && never:
+		key = "isduplicate/" + kn + "-never-duplicate"
+	case pab == "" && pba == "" && ab != ba:
+		key = "isduplicate/asymmetric:" + mid
+	case exp:
+		key = "isduplicate/false-negative:" + mid
+	default:
+		key = "isduplicate/false-positive:" + mid
+	}
+	sum.Mis(key, fmt.Sprintf("%s: IsDuplicate(a, b) = %v, IsDuplicate(b, a) = %v (a panicking call has no answer), Dup.tla says %v", what, ab, ba, exp), cs)
+}
+
+func firstLine(s string) string {
+	if i := strings.IndexByte(s, '\n'); i >= 0 {
+		return s[:i]
+	}
+	return s
+}
+
+// lens: for every slice of the kind, the records whose slice holds a selection of the
+// populated slice's elements (vector: element numbers of both records and the verdict of
+// Dup.tla); as built and as decoded from their packing.  An instantiation is used where both
+// records pack and their octets are equal exactly where the vector says "duplicates".
+func (rp *replayer) lens(k rw.Kind, vecs []*vec, onlyPath string) {
+	kn := keyName(k.Name)
+	never := neverDupBuilt(k)
+	for _, path := range listPaths(k) {
+		if onlyPath != "" && path != onlyPath {
+			continue
+		}
+		n := cellAt(k.Build(), path).V.Len()
+		if n > 3 {
+			n = 3
+		}
+		field := fieldOf(path)
+		packed := map[string][]byte{} // selection -> packing (nil: the library refuses to pack it)
+		wire := func(sel []int) []byte {
+			key := fmt.Sprint(sel)
+			if w, ok := packed[key]; ok {
+				return w
+			}
+			w, err := packRR(withList(k, path, sel))
+			if err != nil {
+				w = nil
+			}
+			packed[key] = w
+			return w
+		}
+		for _, v := range vecs {
+			if v.Kind != "lens" || v.N != n {
+				continue
+			}
+			wa, wb := wire(v.La), wire(v.Lb)
+			if wa == nil || wb == nil || bytes.Equal(wa, wb) != v.Dup {
+				rp.lskips++ // the library does not pack the variant, or packs two different lists to the same octets
+				continue
+			}
+			for _, how := range []string{"as-built", "from-the-wire"} {
+				if v.How != "" && v.How != how {
+					continue
+				}
+				var a, b dns.RR
+				if how == "as-built" {
+					a, b = withList(k, path, v.La), withList(k, path, v.Lb)
+				} else if a, b = viaWire(wa), viaWire(wb); a == nil || b == nil {
+					continue
+				}
+				ab, ba, pab, pba := isDup2(a, b)
+				rp.sum.Evaluations += 2
+				rel := "list-element"
+				switch {
+				case len(v.La) != len(v.Lb):
+					rel = "list-length"
+				case v.Dup:
+					rel = "list-identical"
+				}
+				rp.seen[kn+"/"+rel+"/"+how+"/"+strconv.FormatBool(ab)] = true
+				c := *v
+				c.RKind, c.ListP, c.How = k.Name, path, how
+				judge2(rp.sum, v.Dup, never, kn, kn+":"+rel+":"+field, ab, ba, pab, pba,
+					fmt.Sprintf("%s (%s), %s holding the elements %v / %v", k.Name, how, path, v.La, v.Lb), map[string]interface{}{"vector": c})
+			}
+		}
+	}
+}
+
+func neverDupBuilt(k rw.Kind) bool { return !dns.IsDuplicate(k.Build(), k.Build()) }
+
+// hdrbits: two records of the kind that differ in ONE BIT of the class, of the type or of
+// the TTL in their header (the values are the vector's), as built and as decoded from their
+// packing where the library reads both back.
+func (rp *replayer) hdrbits(k rw.Kind, vecs []*vec) {
+	kn := keyName(k.Name)
+	never := neverDupBuilt(k)
+	set := func(rr dns.RR, f string, val []int) {
+		h := rr.Header()
+		switch f {
+		case "class":
+			h.Class = uint16(val[0])
+		case "type":
+			h.Rrtype = uint16(val[0])
+		case "ttl":
+			h.Ttl = uint32(val[0])<<16 | uint32(val[1])
+		}
+	}
+	for _, v := range vecs {
+		if v.Kind != "hdrbit" {
+			continue
+		}
+		if k.Type == dns.TypeOPT && v.F == "ttl" {
+			continue // the TTL field of an OPT is not a TTL
+		}
+		for _, how := range []string{"as-built", "from-the-wire"} {
+			if v.How != "" && v.How != how {
+				continue
+			}
+			a, b := k.Build(), k.Build()
+			set(a, v.F, v.Va)
+			set(b, v.F, v.Vb)
+			if how == "from-the-wire" {
+				wa, ea := packRR(a)
+				wb, eb := packRR(b)
+				if ea != nil || eb != nil || bytes.Equal(wa, wb) {
+					continue
+				}
+				if a, b = viaWire(wa), viaWire(wb); a == nil || b == nil {
+					continue
+				}
+			}
+			ab, ba, pab, pba := isDup2(a, b)
+			rp.sum.Evaluations += 2
+			what := v.F + "-bit"
+			if v.Bit == 15 && v.F != "ttl" || v.Bit == 31 {
+				what = v.F + "-top-bit"
+			}
+			rp.seen[kn+"/"+what+"/"+how+"/"+strconv.FormatBool(ab)] = true
+			c := *v
+			c.RKind, c.How = k.Name, how
+			judge2(rp.sum, v.Dup, never, kn, kn+":"+what, ab, ba, pab, pba,
+				fmt.Sprintf("%s (%s), %s %v / %v (bit %d differs)", k.Name, how, v.F, v.Va, v.Vb, v.Bit), map[string]interface{}{"vector": c})
+		}
+	}
+}
+
 // the six Dedup symbols for one kind
 func (in *inst) symbol(s int, hasName, hasVal bool) dns.RR {
 	a := abs{1, 1, 'a', 5, 'x', 0}
@@ -732,6 +949,8 @@ func replay(path string, shard, nshards int, only string) {
 			rp.lists(in, vecs, in.namePath != "", in.valPath != "")
 			rp.seqs(in, vecs, in.namePath != "", in.valPath != "")
 			rp.octets(k, names, vecs)
+			rp.lens(k, vecs, vecs[0].ListP)
+			rp.hdrbits(k, vecs)
 			continue
 		}
 		// every name cell and every other cell is the cell under test once, accompanied by
@@ -802,6 +1021,8 @@ func replay(path string, shard, nshards int, only string) {
 			rp.seqs(listInst, vecs, listInst.namePath != "", listInst.valPath != "")
 		}
 		rp.octets(k, names, vecs)
+		rp.lens(k, vecs, "")
+		rp.hdrbits(k, vecs)
 	}
 	sum.Nontrivial = len(rp.seen)
 	sk := make([]string, 0, len(rp.skips))
@@ -810,6 +1031,7 @@ func replay(path string, shard, nshards int, only string) {
 	}
 	sort.Strings(sk)
 	sum.Note("cells_not_on_the_wire", sk)
+	sum.Note("list_variants_not_usable", rp.lskips)
 	sum.Print()
 }
 
@@ -1012,8 +1234,8 @@ func record(out string, n int) {
 		} else if _, ok := u.(*dns.RFC3597); ok {
 			sp = nil
 		}
-		h := u.Header()
-		return u, &wireRec{T: int(h.Rrtype), C: int(h.Class), Ow: hx.FromBytes(ow), Rd: hx.FromBytes(rd), Spans: sp}, wb, mut
+		fx := wb[len(ow):] // type and class as they are in the octets
+		return u, &wireRec{T: int(fx[0])<<8 | int(fx[1]), C: int(fx[2])<<8 | int(fx[3]), Ow: hx.FromBytes(ow), Rd: hx.FromBytes(rd), Spans: sp}, wb, mut
 	}
 	for i := 0; i < n; i++ {
 		p := &plans[rng.Intn(len(plans))]
@@ -1049,6 +1271,18 @@ func record(out string, n int) {
 				} else {
 					rra.Header().Name, rrb.Header().Name = ta, tb
 					r = "owner-octet-xor-0x20"
+				}
+			} else if !mutate && rng.Intn(8) == 0 {
+				// the same record in two classes that differ in ONE bit (any base class, any bit)
+				c := []uint16{dns.ClassINET, dns.ClassCHAOS, dns.ClassNONE, dns.ClassANY, 0, 0x8001, uint16(rng.Intn(65536))}[rng.Intn(7)]
+				bit := rng.Intn(16)
+				b = a
+				b[3] = 1 + rng.Intn(2)
+				rrb = in.make(b)
+				rra.Header().Class, rrb.Header().Class = c, c^(1<<uint(bit))
+				r = "class-bit"
+				if bit == 15 {
+					r = "class-top-bit"
 				}
 			}
 			ra, wa, bytesA, mut := fromWire(rra, mutate)
@@ -1394,6 +1628,156 @@ func spellSweep(k rw.Kind, never bool, w *hx.Writer, sum *hx.Summary, seen map[s
 	}
 }
 
+// lenSweep: for every slice of the kind the records whose slice lost its last / its first
+// element / every element, or holds its last element twice, against the unmodified record and
+// against a second building of the same variant.  Described by their packed octets; the verdict
+// is the specification's.  As built (where the octets differ) and as decoded.
+func lenSweep(k rw.Kind, never bool, w *hx.Writer, sum *hx.Summary, seen map[string]bool) {
+	if k.Type == dns.TypeOPT {
+		return
+	}
+	describe := func(rr dns.RR) (dns.RR, *wireRec) {
+		wb, err := packRR(rr)
+		if err != nil {
+			return nil, nil
+		}
+		u := viaWire(wb)
+		if u == nil {
+			return nil, nil
+		}
+		ow, rd := rdataOf(wb)
+		h := u.Header()
+		return u, &wireRec{T: int(h.Rrtype), C: int(h.Class), Ow: hx.FromBytes(ow), Rd: hx.FromBytes(rd), Spans: spans(rr, rd)}
+	}
+	base := k.Build()
+	ua, wa := describe(base)
+	if ua == nil {
+		return
+	}
+	for _, path := range listPaths(k) {
+		n := cellAt(k.Build(), path).V.Len()
+		all := make([]int, n)
+		for i := range all {
+			all[i] = i + 1
+		}
+		for _, vr := range []struct {
+			name string
+			sel  []int
+		}{{"drop-last", all[:n-1]}, {"drop-first", all[1:]}, {"drop-all", nil}, {"last-twice", append(append([]int{}, all...), n)}} {
+			if n == 1 && vr.name == "drop-first" {
+				continue
+			}
+			b := withList(k, path, vr.sel)
+			ub, wb := describe(b)
+			if ub == nil {
+				continue
+			}
+			ub2, _ := describe(b)
+			same := bytes.Equal(wa.Rd.Bytes(), wb.Rd.Bytes())
+			for _, mode := range []string{"as-built", "from-the-wire"} {
+				x, y := base, b
+				if mode == "from-the-wire" {
+					x, y = ua, ub
+				} else if same {
+					continue // AMBIG: two spellings of the same octets that never were on the wire
+				}
+				// the shorter (changed) list first, then the other order
+				yx, xy, pyx, pxy := isDup2(y, x)
+				var self bool
+				pself := hx.Catch(func() { self = dns.IsDuplicate(ub, ub2) })
+				sum.Evaluations++
+				rel := "list-length:" + vr.name + ":" + mode
+				if pyx != "" || pxy != "" || pself != "" {
+					sum.Mis("isduplicate/panics:"+keyName(k.Name)+":list-length:"+fieldOf(path), fmt.Sprintf("%s (%s): IsDuplicate panics for %s %s: %s",
+						k.Name, mode, path, vr.name, firstLine(pyx+pxy+pself)), map[string]interface{}{"sweep": map[string]interface{}{"kind": k.Name, "path": path, "variant": vr.name, "mode": mode}})
+					continue
+				}
+				e := &event{Ev: "pair", K: k.Name, Rel: rel, A: wb, B: wa, Dup: yx, RDup: xy, Self: self, Never: never, Repack: true, Mut: fieldOf(path)}
+				e.I = w.N + 1
+				w.Emit(e)
+				seen[k.Name+"/"+rel+"/"+strconv.FormatBool(e.Dup)] = true
+			}
+		}
+	}
+}
+
+// hdrSweep: the packed record with ONE BIT of its type, class or TTL octets flipped (every bit of
+// type and class; `ttlBits' of the TTL), decoded and compared with the decoding of the unmodified
+// octets.  Type and class of the description are read from the octets.
+func hdrSweep(k rw.Kind, never bool, w *hx.Writer, sum *hx.Summary, seen map[string]bool) {
+	wb, err := packRR(k.Build())
+	if err != nil {
+		return
+	}
+	ub := viaWire(wb)
+	if ub == nil {
+		return
+	}
+	ow, rd := rdataOf(wb)
+	sp := spans(k.Build(), rd)
+	fixed := len(ow) // type(2) class(2) ttl(4) follow the owner
+	desc := func(m []byte, spn [][2]int) *wireRec {
+		return &wireRec{T: int(m[fixed])<<8 | int(m[fixed+1]), C: int(m[fixed+2])<<8 | int(m[fixed+3]), Ow: hx.FromBytes(ow), Rd: hx.FromBytes(rd), Spans: spn}
+	}
+	wbase := desc(wb, sp)
+	ttlBits := []int{0, 15, 16, 31}
+	if hx.Thorough() {
+		ttlBits = nil
+		for i := 0; i < 32; i++ {
+			ttlBits = append(ttlBits, i)
+		}
+	}
+	type flip struct {
+		f        string
+		off, bit int
+		top      bool
+	}
+	var flips []flip
+	for b := 0; b < 16; b++ {
+		flips = append(flips, flip{"type", fixed + 1 - b/8, b % 8, b == 15}, flip{"class", fixed + 3 - b/8, b % 8, b == 15})
+	}
+	for _, b := range ttlBits {
+		if k.Type != dns.TypeOPT {
+			flips = append(flips, flip{"ttl", fixed + 7 - b/8, b % 8, b == 31})
+		}
+	}
+	for _, fl := range flips {
+		m := append([]byte(nil), wb...)
+		m[fl.off] ^= 1 << uint(fl.bit)
+		u1 := viaWire(m)
+		if u1 == nil {
+			continue
+		}
+		u2 := viaWire(m)
+		spn := sp
+		if _, ok := u1.(*dns.RFC3597); ok || fl.f == "type" {
+			spn = nil // another type: the RDATA is opaque unless the library says otherwise (then the names are where they were)
+			if w2, err := packRR(u1); err == nil && bytes.Equal(w2, m) {
+				_, rd1 := rdataOf(m)
+				spn = spans(u1, rd1)
+			}
+		}
+		var self bool
+		ab, ba, pab, pba := isDup2(u1, ub)
+		pself := hx.Catch(func() { self = dns.IsDuplicate(u1, u2) })
+		sum.Evaluations++
+		rel := "one-header-bit:" + fl.f
+		if fl.top {
+			rel += ":top-bit"
+		}
+		if pab != "" || pba != "" || pself != "" {
+			sum.Mis("isduplicate/panics:"+keyName(k.Name)+":"+rel, fmt.Sprintf("%s: IsDuplicate panics for the octets with bit %d of octet %d flipped: %s",
+				k.Name, fl.bit, fl.off, firstLine(pab+pba+pself)), map[string]interface{}{"sweep": map[string]interface{}{"kind": k.Name, "octet": fl.off, "bit": fl.bit}})
+			continue
+		}
+		e := &event{Ev: "pair", K: k.Name, Rel: rel, A: desc(m, spn), B: wbase, Dup: ab, RDup: ba, Self: self, Never: never, Repack: repacks(u1),
+			Mut: fmt.Sprintf("octet[%d]^=%d", fl.off, 1<<uint(fl.bit))}
+		e.I = w.N + 1
+		w.Emit(e)
+		seen[k.Name+"/"+rel+"/"+strconv.FormatBool(e.Dup)] = true
+	}
+}
+
 func neverDup(k rw.Kind) bool {
 	w, err := packRR(k.Build())
 	if err != nil {
@@ -1421,6 +1805,8 @@ func sweep(out string, shard, nshards int) {
 		never := neverDup(k)
 		addrSweep(k, never, w, sum, seen)
 		spellSweep(k, never, w, sum, seen)
+		lenSweep(k, never, w, sum, seen)
+		hdrSweep(k, never, w, sum, seen)
 		wb, err := packRR(base)
 		if err != nil {
 			continue
